@@ -28,6 +28,7 @@ RULE = (
     "symmetry of the law (|rot(C)-C| > 1e-3|C|) or axes not unit; notation = shear block non zero; pmat = "
     "Q != I; mutation = at least one effective parameter change followed by a read. distinct = sha1 of the "
     "serialised case."
+    ' Round 8: integer_stiffness draws integer-typed SPD matrices (Voigt / Kelvin-Mandel, constructor / Set_C, aligned / rotated axes; non-trivial = a non-zero normal-shear coupling); integer_parameters enumerates law class x unit of the moduli x integer type of per-element fields.'
 )
 ASSUMPTIONS = [
     "the oracle's Kelvin-Mandel basis (unit-norm symmetric dyads, order xx,yy,zz,yz,xz,xy) and einsum "
